@@ -23,6 +23,25 @@ type Chunking struct {
 	FaultWithData bool `json:"fault_with_data"`
 	// CutAt >= 0 truncates the input to CutAt bytes (clean EOF).
 	CutAt int `json:"cut_at"`
+	// FaultErr selects the error value of the injected fault: "" is ErrFault,
+	// "unexpected-eof" is io.ErrUnexpectedEOF itself (what gzip, flate, tar
+	// and short HTTP bodies report for a broken stream), "closed-pipe" is
+	// io.ErrClosedPipe.
+	FaultErr string `json:"fault_error,omitempty"`
+	// Empty > 1: every Empty-th Read call returns (0, nil) without
+	// delivering anything - allowed by the io.Reader contract.
+	Empty int `json:"empty_read_every,omitempty"`
+}
+
+// FaultError returns the error value a reader under c injects.
+func (c Chunking) FaultError() error {
+	switch c.FaultErr {
+	case "unexpected-eof":
+		return io.ErrUnexpectedEOF
+	case "closed-pipe":
+		return io.ErrClosedPipe
+	}
+	return ErrFault
 }
 
 // NoFault returns a chunking without cut or fault.
@@ -46,6 +65,12 @@ func (c Chunking) String() string {
 		if c.FaultWithData {
 			s += "+data"
 		}
+		if c.FaultErr != "" {
+			s += "(" + c.FaultErr + ")"
+		}
+	}
+	if c.Empty > 1 {
+		s += fmt.Sprintf(" empty-read-every-%d", c.Empty)
 	}
 	return s
 }
@@ -81,9 +106,12 @@ func (r *Reader) Read(p []byte) (int, error) {
 	if len(p) == 0 {
 		return 0, nil
 	}
+	if r.c.Empty > 1 && r.Calls%r.c.Empty == 0 {
+		return 0, nil
+	}
 	if r.c.FaultAt >= 0 && r.pos >= r.c.FaultAt {
 		r.faulted = true
-		return 0, ErrFault
+		return 0, r.c.FaultError()
 	}
 	if r.pos >= len(r.data) {
 		return 0, io.EOF
@@ -120,7 +148,7 @@ func (r *Reader) Read(p []byte) (int, error) {
 	r.Delivered += n
 	if r.c.FaultAt >= 0 && r.pos >= r.c.FaultAt && r.c.FaultWithData {
 		r.faulted = true
-		return n, ErrFault
+		return n, r.c.FaultError()
 	}
 	if r.c.Kind == "dataeof" && r.pos >= len(r.data) {
 		return n, io.EOF
@@ -133,6 +161,14 @@ func (r *Reader) Faulted() bool { return r.faulted }
 
 // DrawChunking draws a chunking without faults.
 func DrawChunking(d D) Chunking {
+	c := drawChunking(d)
+	if d.Int(0, 5, "stutter") == 0 {
+		c.Empty = []int{2, 3, 5, 17}[d.Int(0, 3, "every")]
+	}
+	return c
+}
+
+func drawChunking(d D) Chunking {
 	switch d.Int(0, 6, "chunk") {
 	case 0:
 		return NoFault("whole", 0)
@@ -162,5 +198,7 @@ func DrawChunking(d D) Chunking {
 func StandardChunkings() []Chunking {
 	l := NoFault("list", 0)
 	l.Sizes = []int{1, 2, 3, 5, 1, 11}
-	return []Chunking{NoFault("whole", 0), NoFault("one", 0), NoFault("fixed", 3), NoFault("fixed", 7), l, NoFault("dataeof", 0)}
+	st := NoFault("fixed", 5)
+	st.Empty = 2
+	return []Chunking{NoFault("whole", 0), NoFault("one", 0), NoFault("fixed", 3), NoFault("fixed", 7), l, NoFault("dataeof", 0), st}
 }
